@@ -265,6 +265,136 @@ def col1(p, res, rule="COL-1"):
     return n
 
 
+# ------------------------------------------------------------------ COL-2
+def col2(p, res, rule="COL-2"):
+    """core noise-free operations: a read operand is accessed at the loop's column index only below its own rank + 1
+    (loop bound = rank(operand)+1, a min(..) containing it, or an asserted equality of the ranks)"""
+    from .c17 import key_le
+    n = 0
+    for f in sorted(p.lib_fns(), key=lambda x: x.uid):
+        if not f.uid.startswith(("poulpy_core::api::operations", "poulpy_core::operations")) or f.kind == "Closure":
+            continue
+        if not f.name.startswith("glwe_") or f.name.endswith("_tmp_bytes"):
+            continue
+        g = CFG(f)
+        flow = Flow(f, transparent=VIEW_CORE)
+        plain = Flow(f)
+        sym = Sym(f, plain)
+        # asserted equalities: `==` whose false arm cannot return
+        eqs = []
+        cr = g.can_return()
+        for b in g.reach:
+            t = f.blocks[b]["t"]
+            if not t or t["k"] != "Switch" or len(t["ts"]) != 1:
+                continue
+            for r in plain.op_roots(t["o"]):
+                false_arm = t["ts"][0][1] if t["ts"][0][0] == 0 else None
+                if false_arm is None or false_arm in cr:
+                    continue
+                if r[0] == "bin":
+                    st = f.blocks[r[1]]["s"][r[2]][2]
+                    if st["op"] == "Eq":
+                        eqs.append((sym.operand(st["o"][0]).key(), sym.operand(st["o"][1]).key()))
+                elif r[0] == "call":
+                    t2 = f.blocks[r[1]]["t"]
+                    if (f.callee_def(t2) or {}).get("n") == "eq" and len(t2["a"]) == 2:
+                        eqs.append((sym.operand(t2["a"][0]).key(), sym.operand(t2["a"][1]).key()))
+        # equalities also come through assert_eq!(a, b): match on (&a, &b) then `*l == *r`
+        def rank_of(pi):
+            return Poly.atom(("f", "rank", (Poly.atom(("p", pi, ())).key(),)))
+
+        def same(a, b):
+            if a == b:
+                return True
+            return (a, b) in eqs or (b, a) in eqs
+
+        for L in g.loops():
+            nx = None
+            for b in sorted(L["body"]):
+                t = f.blocks[b]["t"]
+                if t and t["k"] == "Call" and (f.callee_def(t) or {}).get("n") == "next" and g.innermost_loop(b) is L:
+                    nx = (b, t)
+                    break
+            if nx is None:
+                continue
+            rg = wr.range_of_next(f, plain, sym, nx[1])
+            if rg is None or rg[1] is None:
+                continue
+            var = Poly.atom(("call", f.uid, nx[0], ("0",)))
+            for b in L["body"]:
+                t = f.blocks[b]["t"]
+                if not t or t["k"] != "Call" or g.innermost_loop(b) is not L:
+                    continue
+                d = f.callee_def(t) or {}
+                if not d.get("n", "").startswith("vec_znx_") or len(t["a"]) < 3:
+                    continue
+                for ai, a in enumerate(t["a"][:-1]):
+                    if a[0] not in ("c", "m") or f.local_ty(a[1][0]).get("r", "").startswith("&mut"):
+                        continue
+                    owners = {r[1] for r in flow.op_roots(a) if r[0] == "param" and r[1] > 1}
+                    if len(owners) != 1:
+                        continue
+                    if not (sym.operand(t["a"][ai + 1]) == var):
+                        continue
+                    pi = next(iter(owners))
+                    ty = f.local_ty(pi)["s"]
+                    n += 1
+                    hi = rg[1]
+                    bound = rank_of(pi) + Poly.const(1)
+                    hm1 = (hi - Poly.const(1)).key()
+                    rk = rank_of(pi).key()
+                    ok = key_le(hi.key(), bound.key()) or key_le(hm1, rk)
+                    if not ok:
+                        # hi = rank(X) + 1 with rank(X) asserted equal to rank(operand)
+                        ok = same(hm1, rk)
+                    if not ok:
+                        # hi = max(x, y) + 1 under a dominating comparison of x and y that makes the operand's rank the larger one
+                        am = hm1[0][0][0] if len(hm1) == 1 and hm1[0][1] == 1 and len(hm1[0][0]) == 1 else None
+                        if am is not None and am[0] == "f" and am[1] == "max" and rk in am[2]:
+                            other = [k for k in am[2] if k != rk]
+                            for sb in g.reach:
+                                ts = f.blocks[sb]["t"]
+                                if not ts or ts["k"] != "Switch" or len(ts["ts"]) != 1 or not g.dominates(sb, b) or sb == b:
+                                    continue
+                                zero_arm = ts["ts"][0][1] if ts["ts"][0][0] == 0 else None
+                                other_arm = ts["o2"] if "o2" in ts else None
+                                for r in plain.op_roots(ts["o"]):
+                                    cmpn, x, y = None, None, None
+                                    if r[0] == "call":
+                                        t2 = f.blocks[r[1]]["t"]
+                                        cn2 = (f.callee_def(t2) or {}).get("n")
+                                        if cn2 in ("gt", "ge", "lt", "le") and len(t2["a"]) == 2:
+                                            cmpn, x, y = cn2, sym.operand(t2["a"][0]).key(), sym.operand(t2["a"][1]).key()
+                                    elif r[0] == "bin":
+                                        st = f.blocks[r[1]]["s"][r[2]][2]
+                                        if st["op"] in ("Gt", "Ge", "Lt", "Le"):
+                                            cmpn, x, y = st["op"].lower(), sym.operand(st["o"][0]).key(), sym.operand(st["o"][1]).key()
+                                    if cmpn is None or {x, y} != {rk, other[0] if other else None}:
+                                        continue
+                                    # which arm dominates the read?
+                                    true_side = [s2 for s2 in g.succ[sb] if s2 != zero_arm]
+                                    on_true = any(g.dominates(s2, b) or s2 == b for s2 in true_side)
+                                    on_false = zero_arm is not None and (g.dominates(zero_arm, b) or zero_arm == b)
+                                    if on_true == on_false:
+                                        continue
+                                    larger_is_x = cmpn in ("gt", "ge")
+                                    if not on_true:
+                                        larger_is_x = not larger_is_x
+                                    larger = x if larger_is_x else y
+                                    if larger == rk:
+                                        ok = True
+                    if not ok and "rank" not in repr(hi.key()):
+                        continue  # the bound is not a rank expression (cols of a raw vector etc.)
+                    pn = f.param_names().get(pi, "#%d" % pi)
+                    if ok:
+                        res.ok(rule, {"fn": f.pretty, "operand": pn, "columns": "%r..%r" % (rg[0], hi)} if n % 10 == 1 else None)
+                    else:
+                        res.bad(rule, f.pretty, "operand-column-beyond-rank:%s" % pn,
+                                "%s reads operand `%s` at columns up to %r, which is not bounded by `%s.rank() + 1` (no min, no asserted equality): with a lower-rank operand the accessor panics on a column the operand does not have"
+                                % (f.pretty, pn, hi, pn), site=f.where(t["l"]))
+    return n
+
+
 # ------------------------------------------------------------------ WR-4
 def wr4(p, res):
     """offset kernels over raw slices (vector-matrix product with `limb_offset`): the zero fill of the result starts exactly one stride after the last
@@ -615,6 +745,7 @@ def run(res, tier):
     res.rule("WR-1", "overwrite-type shape function: written limb ranges (direct, via for_each, or forwarded to another overwrite-type shape function) cover [0, res.size()) for every ordering of the size variables; conditional writes need another write for the same limb")
     res.rule("WR-2", "every at/at_mut on a view of operand X takes X_col as its column (polynomial identity, closures included)")
     res.rule("WR-3", "pointers from as_ptr() of read-only slice operands never become store destinations")
+    res.rule("COL-2", "core noise-free operations read an operand at the loop's column index only below the operand's own rank + 1 (bound equal, min-dominated, or ranks asserted equal)")
     res.rule("WR-6", "carry buffers of shift / normalisation shape functions are written (first_step* kernel or znx_zero) before any middle/final step reads them on every feasible path, zero-trip loops included (a skipped `for j in 0..T` implies T == 0)")
     res.rule("WR-5", "every mutable use of a column-selected output operand is column-selective (at_mut / zero_at), a re-view, or a hand-over to another shape function; whole-object mutators are violations (five raw-offset functions listed by name)")
     res.rule("WR-4", "raw-slice kernels taking `limb_offset`: the zero fill of the result starts exactly one stride after the last explicitly addressed written limb (fft64 and ntt120 vector-matrix products)")
@@ -635,6 +766,8 @@ def run(res, tier):
         res.floor("WR-3", "as_ptr sources on read-only operands", n3, 20, ref_min=2)
         nc = col1(p, res)
         res.floor("COL-1", "core noise-free operations", nc, 12)
+        nc2 = col2(p, res)
+        res.floor("COL-2", "read operands indexed by a column loop", nc2, 10)
         n6 = wr6(p, res)
         res.floor("WR-6", "shape functions with a carry buffer", n6, 6)
         n5 = wr5(p, res)
